@@ -297,7 +297,9 @@ func sitesMain(w *out.W, tier string) {
 	probes := []struct {
 		ty  int
 		ext any
-	}{{2, &sqlspec.Table{Name: "t"}}, {4, &sqlspec.Trigger{Name: "t"}}, {5, &sqlspec.Sequence{Name: "s"}}, {6, &sqlspec.Schema{Name: "s"}}}
+	}{{2, &sqlspec.Table{Name: "t"}}, {4, &sqlspec.Trigger{Name: "t"}}, {5, &sqlspec.Sequence{Name: "s"}}, {6, &sqlspec.Schema{Name: "s"}},
+		// two names per type: the one registered first (fix C20-hcl-scan-type)
+		{1, &sqlspec.View{Name: "v"}}, {3, &sqlspec.Func{Name: "f"}}}
 	for b, pr := range probes {
 		for pi, p := range permsOf(r, len(reg), 3*k) {
 			id := fmt.Sprintf("lk%d.%d", b, pi)
@@ -307,6 +309,9 @@ func sitesMain(w *out.W, tier string) {
 				obs = "lk " + hx(res.Type)
 			}
 			line := fmt.Sprintf("lk %d %d", pr.ty, len(reg))
+			for _, e := range reg { // registration order: sqlspec's init, then postgres'
+				line += " " + hx(e.name)
+			}
 			for _, x := range p {
 				line += fmt.Sprintf(" %s %d", hx(reg[x].name), reg[x].ty)
 			}
@@ -371,7 +376,136 @@ func sitesMain(w *out.W, tier string) {
 			nt(fmt.Sprintf("ta%d/%v", b, p), n, p)
 		}
 	}
-	_ = sort.Strings
+	// ---- ef: State.EvalOptions over several files (locals that refer to locals of other files)
+	for b := 0; b < nb; b++ {
+		n := 2 + r.Intn(3)
+		fnames := tableNames(r, n)
+		type hf struct {
+			name  string
+			defs  []string
+			needs []string
+		}
+		fs := make([]hf, n)
+		for i := range fs {
+			fs[i].name = fnames[i] + ".hcl"
+			fs[i].defs = []string{fmt.Sprintf("l%d", i)}
+		}
+		for i := range fs {
+			if r.Intn(2) == 0 {
+				j := r.Intn(n)
+				if j != i {
+					fs[i].needs = append(fs[i].needs, fs[j].defs[0])
+				}
+			}
+		}
+		for pi, p := range permsOf(r, n, k) {
+			id := fmt.Sprintf("ef%d.%d", b, pi)
+			files := map[string]string{}
+			for i, f := range fs {
+				val := fmt.Sprintf("\"v%d\"", i)
+				if len(f.needs) > 0 {
+					val = "local." + f.needs[0]
+				}
+				files[f.name] = fmt.Sprintf("locals {\n  %s = %s\n}\n", f.defs[0], val)
+			}
+			files[fs[0].name] += "schema \"main\" {\n}\n"
+			obs := "ef error"
+			if _, err := evalFiles(dialectByName("sqlite"), files); err == nil {
+				var ns []string
+				for _, f := range fs {
+					ns = append(ns, f.name)
+				}
+				sort.Strings(ns)
+				for i := range ns {
+					ns[i] = hx(ns[i])
+				}
+				obs = "ef ok " + strings.Join(ns, ",")
+			}
+			line := fmt.Sprintf("ef %d", n)
+			for _, x := range p {
+				f := fs[x]
+				line += fmt.Sprintf(" %s %d", hx(f.name), len(f.defs))
+				for _, d := range f.defs {
+					line += " " + hx(d)
+				}
+				line += fmt.Sprintf(" %d", len(f.needs))
+				for _, d := range f.needs {
+					line += " " + hx(d)
+				}
+			}
+			w.Case(id, line, []string{obs})
+			w.Count("site:EvalOptions.files")
+			if obs == "ef error" {
+				w.Count("ef:error")
+			}
+			nt(fmt.Sprintf("ef%d/%v", b, p), n, p)
+		}
+	}
+
+	// ---- ra: the remainder of Resource.as (fix C20-hcl-remain-order): r.Attrs / r.Children order
+	for b := 0; b < nb; b++ {
+		na, nc := 1+r.Intn(8), r.Intn(7)
+		anames := tableNames(r, na)
+		sort.Strings(anames) // r.Attrs is what toAttrs returned: sorted by name
+		ctypes := []string{"k", "l", "m", "n"}
+		type ch struct{ t, n string }
+		var chs []ch
+		for i := 0; i < nc; i++ {
+			chs = append(chs, ch{ctypes[r.Intn(len(ctypes))], fmt.Sprintf("c%d", i)})
+		}
+		var src strings.Builder
+		src.WriteString("thing \"a\" {\n")
+		for i, a := range anames {
+			fmt.Fprintf(&src, "  %s = %d\n", a, i+1)
+		}
+		for _, c := range chs {
+			fmt.Fprintf(&src, "  %s \"%s\" {}\n", c.t, c.n)
+		}
+		src.WriteString("}\n")
+		tset := map[string]bool{}
+		var tkeys []string
+		for _, c := range chs {
+			if !tset[c.t] {
+				tset[c.t] = true
+				tkeys = append(tkeys, c.t)
+			}
+		}
+		for pi, p := range permsOf(r, na, k) {
+			id := fmt.Sprintf("ra%d.%d", b, pi)
+			var d remDoc
+			obs := "ra error"
+			if err := schemahcl.New().EvalBytes([]byte(src.String()), &d, nil); err == nil && len(d.Things) == 1 {
+				var xs, cs []string
+				for _, a := range d.Things[0].Extra.Attrs {
+					v, _ := a.Int()
+					xs = append(xs, fmt.Sprintf("%s=%d", hx(a.K), v))
+				}
+				for _, c := range d.Things[0].Extra.Children {
+					cs = append(cs, hx(c.Type)+":"+hx(c.Name))
+				}
+				obs = "ra " + strings.Join(xs, ",") + " | " + strings.Join(cs, ",")
+			}
+			line := fmt.Sprintf("ra %d", na)
+			for i, a := range anames {
+				line += fmt.Sprintf(" %s %d", hx(a), i+1)
+			}
+			line += fmt.Sprintf(" %d", len(chs))
+			for _, c := range chs {
+				line += " " + hx(c.t) + " " + hx(c.n)
+			}
+			line += fmt.Sprintf(" %d", na)
+			for _, x := range p {
+				line += " " + hx(anames[x])
+			}
+			line += fmt.Sprintf(" %d", len(tkeys))
+			for i := range tkeys { // rotate the type keys with the permutation index
+				line += " " + hx(tkeys[(i+pi)%len(tkeys)])
+			}
+			w.Case(id, line, []string{obs})
+			w.Count("site:Resource.as")
+			nt(fmt.Sprintf("ra%d/%v", b, p), na, p)
+		}
+	}
 }
 
 // r2perm: a random permutation of 1..n.
